@@ -20,8 +20,8 @@ CHECK = {
     "bounds": {"quick": "TODO", "thorough": "TODO"},
     "units": {
         "lease": {"pkg": "internal/verifshim/h_c08", "run": "TestVerifC08Lease", "harness": _H, "rewrite": _RW,
-                  "shards": 16, "gomaxprocs": 2, "budget_s": {"quick": 45, "thorough": 300}},
+                  "shards": 16, "gomaxprocs": 2, "budget_s": {"quick": 60, "thorough": 290}},
         "dnssec": {"pkg": "internal/verifshim/h_c08", "run": "TestVerifC08DNSSEC", "harness": _H, "rewrite": _RW,
-                   "shards": 16, "gomaxprocs": 2, "budget_s": {"quick": 40, "thorough": 300}},
+                   "shards": 16, "gomaxprocs": 2, "budget_s": {"quick": 50, "thorough": 290}},
     },
 }
